@@ -25,7 +25,9 @@ const MODS: [&str; 21] = [
     // a heading that is the empty string: the argument still has to be listed somewhere
     "empty-heading",
 ];
-const CMODS: [&str; 13] = [
+const CMODS: [&str; 14] = [
+    // a running help heading for arguments without one, with and without display orders
+    "next-heading-alphabetical",
     "none", "next-line-help", "flatten-help", "tmpl-options", "tmpl-positionals", "tmpl-subcommands", "tmpl-all-args", "sub-heading", "before-after", "flatten-equal-display-order", "hide-possible-values",
     // every argument gets the same display order and the second short is the first one's capital
     "equal-order-case-shorts",
@@ -175,6 +177,10 @@ fn mk_cmd(args: Vec<ArgSpec>, cm: &str, width: usize) -> CmdSpec {
             c.set(Setting::FlattenHelp);
         }
         "hide-possible-values" => c.set(Setting::HidePossibleValues),
+        "next-heading-alphabetical" => {
+            c.next_help_heading = Some("NEXTHEAD".into());
+            c.next_display_order_none = true;
+        }
         "equal-order-unicode-case-shorts" => {
             for a in c.args.iter_mut() {
                 a.display_order = Some(0);
@@ -322,6 +328,16 @@ fn check(spec: &CmdSpec, shapes: &[(String, String)], cm: &str) -> Vec<(String, 
                 }
             }
         }
+        // hidden in this mode only (hide_short_help / hide_long_help): its help text is absent from
+        // the renderings of that mode
+        if !r.usage_only && !r.sub_level {
+            for (n, a) in spec.args.iter().enumerate() {
+                let mode_hidden = !a.hide && ((r.long && a.hide_long_help) || (!r.long && a.hide_short_help));
+                if mode_hidden && !a.required && t.contains(&format!("HELPMARK{}", n)) {
+                    bad.push(("an argument hidden from this help mode appears in it".into(), format!("{}: found HELPMARK{} ({})", r.name, n, if r.long { "long" } else { "short" })));
+                }
+            }
+        }
         if r.sub_level {
             let usage_ok = t.lines().any(|l| {
                 // parent's required arguments may sit between the names: `prog <VAL0> viscmd`
@@ -349,7 +365,7 @@ fn check(spec: &CmdSpec, shapes: &[(String, String)], cm: &str) -> Vec<(String, 
             if hidden_here {
                 continue;
             }
-            let heading = a.help_heading.clone().unwrap_or_else(|| if a.is_positional() { "Arguments".into() } else { "Options".into() });
+            let heading = a.help_heading.clone().or_else(|| spec.next_help_heading.clone()).unwrap_or_else(|| if a.is_positional() { "Arguments".into() } else { "Options".into() });
             // an empty heading has no recognisable title line: the entry may stand anywhere
             let all_lines: Vec<&str> = t.lines().filter(|l| l.starts_with(' ')).collect();
             let Some(lines) = (if heading.is_empty() { Some(all_lines) } else { section(t, &heading) }) else {
